@@ -125,7 +125,7 @@ Lemma construct_efun c k a s : construct c k a = Some s ->
   efun s = fresh_fun c k (a_vals a) /\ valid k (a_vals a) = true.
 Proof.
   intro H. destruct (constructor_reports_arguments c k a s H) as (_ & _ & _ & E & _).
-  split; [exact E|]. destruct a as [v p]. exact (construct_some_valid c k v p s H).
+  split; [exact E|]. destruct a as [v p]. exact (proj1 (construct_some_valid c k v p s H)).
 Qed.
 
 Theorem bivariate_density c a s x y z : construct c KBiv a = Some s ->
